@@ -231,6 +231,7 @@ MC_FAMILIES = {  # cfg file, (quick depth, thorough depth)
     "migrate": ("MC_Migrate.cfg", (14, 18)),
     "version": ("MC_Version.cfg", (10, 12)),
     "debt": ("MC_Debt.cfg", (7, 8)),
+    "stagger": ("MC_Stagger.cfg", (12, 14)),
 }
 MC_FAMILY_CFG = {"accounts": 8, "dids": 2, "validators": 2, "balance": 10000000, "blockReward": 840}
 
@@ -241,7 +242,7 @@ def model_check_families(binary, workdir, tier):
     for fam, (cfgfile, depths) in MC_FAMILIES.items():
         d = os.path.join(workdir, fam)
         stage_spec(d)
-        gcfg = MC_CFG if fam in ("timeout", "sponsor", "migrate", "version", "debt") else MC_FAMILY_CFG   # the timeout family jumps over long spans: no block reward there
+        gcfg = MC_CFG if fam in ("timeout", "sponsor", "migrate", "version", "debt", "stagger") else MC_FAMILY_CFG   # the timeout family jumps over long spans: no block reward there
         if fam == "fault":
             gcfg = GEN_CFG                                     # a03 is a fishman
         if fam == "sidauth":
